@@ -199,20 +199,16 @@ public:
               this->deallocate();
               exchange_memory(*this, img);
           } else {
-              // cannot propagate the allocator and cannot adopt the memory
-              if (img._memory)
-              {
-                  allocate_and_copy(img.dimensions(), img._view);
-                  destruct_pixels(img._view);
-                  img.deallocate();
-                  img._view = image::view_t{};
-              }
-              else
-              {
-                  destruct_pixels(this->_view);
-                  this->deallocate();
-                  this->_view = view_t{};
-              }
+              // cannot propagate the allocator and cannot adopt the memory:
+              // copy into memory from our allocator (releasing what we held), then release the source
+              image tmp(img.dimensions(), img._align_in_bytes, _alloc);
+              copy_pixels(img._view, tmp._view);
+              swap(tmp);
+              destruct_pixels(img._view);
+              img.deallocate();
+              img._memory = nullptr;
+              img._allocated_bytes = 0;
+              img._view = image::view_t{};
           }
       }
 
